@@ -69,8 +69,10 @@ CLAIMS.update({
     "C14": dict(
         technique="Lean 4 theorems about the parser model (markers, splitting, escape grammar) + exhaustive/random model-implementation correspondence with grammar oracles",
         text="Partial proof. Theorems: marker table (negation, kinds, escapes), a text whose spaces are all escaped is a single atom (splitting only at unescaped whitespace, "
-             "for every text), replacing escaped spaces inverts escaping for every text (ASCII path), reparse = parse (the model is a function). The complete literal round trip "
-             "through Atom::parse for both paths, smart case/normalization and case-folded storage are evaluated as oracle clauses on the implementation's atoms for every "
+             "for every text), replacing escaped spaces inverts escaping for every text (ASCII path), reparse = parse (the model is a function); the complete literal round trip "
+             "for ASCII text (C14_literal_roundtrip_ascii: for every escapable text and every CaseMatching x Normalization, parsing its escaped form - leading marker escaped, "
+             "spaces escaped, trailing $ escaped - yields exactly one positive fuzzy atom, the atom built from the text itself; with case respected the needle is the text). The "
+             "round trip through the non-ASCII escape loop, smart case/normalization and case-folded storage are evaluated as oracle clauses on the implementation's atoms for every "
              "generated pattern, including all 7381 texts of length <= 4 over {a B ! ^ ' $ \\ space ä}; model = implementation on all of them (both new_inner paths).",
         note="Trusted: Lean kernel, axioms propext/Classical.choice/Quot.sound, harness+driver. Grapheme segmentation is a model input; private flags are read from Debug output."),
     "C15": dict(
